@@ -119,6 +119,50 @@ theorem batched_eq_map {α β : Type} (f : α → β) (nb bs : ℕ) (l : List α
 theorem combine_single (E Wt : K) (hW : Wt ≠ 0) : combine [(E, Wt)] = E := by
   unfold combine; simp; field_simp
 
+/-- numerator and denominator of `combine` over a concatenation of groups -/
+theorem combine_flatten_num (groups : List (List (K × K))) :
+    (groups.flatten.map fun b => b.1 * b.2).sum = (groups.map fun g => (g.map fun b => b.1 * b.2).sum).sum := by
+  simp [List.sum_flatten, Function.comp_def]
+
+theorem combine_flatten_den (groups : List (List (K × K))) :
+    (groups.flatten.map fun b => b.2).sum = (groups.map fun g => (g.map fun b => b.2).sum).sum := by
+  simp [List.sum_flatten, Function.comp_def]
+
+/-- **reduction over the (n_sr_blocks, n_ene_blocks) array**: the total-weight average over all blocks equals the
+average of the per-reconfiguration-block averages *weighted by the total weight of each reconfiguration block* — for
+every grouping of the blocks.  (An unweighted mean over the groups is a different number as soon as the group weights
+differ: `two_stage_unweighted_differs`.) -/
+theorem combine_grouped (groups : List (List (K × K)))
+    (hW : ∀ g ∈ groups, (g.map fun b => b.2).sum ≠ 0) :
+    combine groups.flatten = combine (groups.map fun g => (combine g, (g.map fun b => b.2).sum)) := by
+  unfold combine
+  rw [combine_flatten_num, combine_flatten_den]
+  congr 1
+  · simp only [List.map_map]
+    congr 1
+    refine List.map_congr_left fun g hg => ?_
+    simp only [Function.comp]
+    exact (div_mul_cancel₀ _ (hW g hg)).symm
+  · simp only [List.map_map]; rfl
+
+/-- witness: two reconfiguration blocks of one energy block each, energies 0 and 1, weights 1 and 3 — the block
+estimator is 3/4, the unweighted mean of the per-group energies is 1/2 -/
+theorem two_stage_unweighted_differs :
+    combine [((0 : ℚ), 1), (1, 3)] = 3 / 4 ∧ (combine [((0 : ℚ), 1)] + combine [((1 : ℚ), 3)]) / 2 = 1 / 2 := by
+  constructor <;> norm_num [combine]
+
+/-- constant block energies: the combined value is that constant, whatever the block weights -/
+theorem combine_const (E : K) (ws : List K) (hW : ws.sum ≠ 0) : combine (ws.map fun w => (E, w)) = E := by
+  unfold combine
+  simp only [List.map_map, Function.comp_def, List.map_id']
+  have : (ws.map fun x => E * x).sum = E * ws.sum := by
+    clear hW
+    induction ws with
+    | nil => simp
+    | cons a l ih => simp [List.sum_cons, ih, mul_add]
+  rw [this]
+  field_simp
+
 end estimator
 
 /-! ## non-vacuity -/
